@@ -34,6 +34,10 @@ func init() {
 			"(a) ALIASING of derived collections (both tiers, complete over the listed shapes): for every operation the spec says returns a NEW collection (Go API Dict.Union, Set.Union/Intersection/Difference/SymmetricDifference with set and list iterators; Starlark dict |, dict(x), dict(x, kw), dict(x.items()), comprehension, set | & - ^, " +
 			"set.union/intersection/difference/symmetric_difference with set/list/no argument, set(x), keys/values/items/list) and every pair of operand shapes {never-allocated zero value / literal, constructor-empty, emptied by delete, by pop-first, by clear, grown then cleared, 1, 3, 5 keys, 9-entry chain with an overflow bucket} plus the identical operand (x OP x): " +
 			"the result is a different object; inserting a fresh key into, deleting from and clearing the result leaves both operands equal to their models; the same mutations of either operand leave a fresh result equal to its model; freezing the operands leaves the result mutable (violations: key 'C12 alias <operation>'). The random arm also clears every derived result and re-checks the receiver. " +
+			"(g) GO-API READ ROUTES interleaved with mutations: a read, finished or abandoned, is not an operation of the model, so after it the table must accept every mutation and go on following the ordered-map model. Complete over {13 start shapes (zero value, emptied tables, 1-13 keys, full chains with an overflow bucket and a vacated slot) x 2 universes x dict/set} x " +
+			"{range over Dict.Entries / Set.Elements, starlark.Entries / starlark.Elements on the collection and on a wrapped mapping/iterable (generic path), starlark.Elements(dict), iter.Pull/Pull2 over them, Iterate/Next/Done, starlark.Iterate, Keys, Items, keys()/values()/items(), list(set)} x {stop at the first, second, middle, last element, run to completion, close before the first element} x " +
+			"{alone, followed by a second read, with a second read nested in the loop body, with a mutation attempted in the loop body (not judged while the read is open: either outcome, the table must agree with the model)} x 15 mutations (SetKey/Insert, setdefault/add, update, c[k]=v and dict |= in a Starlark function, Delete of first/last/absent key, pop/discard/remove, popitem/pop, Clear, clear(), delete + re-insert): every element is compared with the model when it is yielded, the mutation's result when it is made, " +
+			"and len, order, lookups of the whole id space, Keys/Items and VerifCheckTable after the mutation and after a following delete + re-insert of the first key (violations: key 'C12 go-read <dict|set> <aspect>', aspect mutation-rejected-after-read when a mutation fails although every read has ended); plus random histories of 300 top-level steps of such reads (nested to depth 3, mutations and lookups inside the bodies) and mutations over tables that fill and drain repeatedly. " +
 			"distinct_nontrivial counts distinct (start, live universe keys in order, surviving fillers, bucket count, overflow-bucket count) states reached in arm x plus one per case of the other arms.",
 		Assumptions: []string{
 			"the oracle is a plain ordered association list; derived-collection orders are those of doc/spec.md (`&` keeps the left operand's order; symmetric_difference lists S-minus-y then y-minus-S; dict | and |= keep left keys in place; popitem/pop remove the first entry)",
@@ -52,7 +56,7 @@ func finish(ev map[string]any) (string, bool) {
 		return "", false
 	}
 	cnt, _ := ev["counters"].(map[string]int64)
-	for _, k := range []string{"x_sequences_judged", "x_table_invariant_checks", "x_undo_crosschecked_cases", "x_grow_events_in_enumerated_ops", "s_checks_executed", "s_operand_pairs", "r_operations", "r_table_invariant_checks", "r_derived_operations", "s_alias_sequences", "a_goapi_alias_scenarios"} {
+	for _, k := range []string{"x_sequences_judged", "x_table_invariant_checks", "x_undo_crosschecked_cases", "x_grow_events_in_enumerated_ops", "s_checks_executed", "s_operand_pairs", "r_operations", "r_table_invariant_checks", "r_derived_operations", "s_alias_sequences", "a_goapi_alias_scenarios", "g_read_then_mutate_scenarios", "g_reads_ended_early", "g_mutations_with_no_read_open", "g_random_top_level_steps"} {
 		if cnt[k] <= 0 {
 			return "monitor observed nothing for " + k, true
 		}
@@ -81,7 +85,7 @@ func run(c *driver.Ctx) {
 		}
 	}
 	go memoryGuard(c)
-	arms := os.Getenv("VERIF_C12_ARMS") // dev only: subset of "xsr"
+	arms := os.Getenv("VERIF_C12_ARMS") // dev only: subset of "xsrag"
 	on := func(a string) bool { return arms == "" || containsByte(arms, a[0]) }
 	if on("x") {
 		runExhaustive(c)
@@ -103,6 +107,9 @@ func run(c *driver.Ctx) {
 	}
 	if on("r") {
 		runRandom(c)
+	}
+	if on("g") {
+		runGoReads(c)
 	}
 }
 
